@@ -1,5 +1,414 @@
 package main
 
-import "time"
+// Property checks: which units / lemmas / scans decide which property,
+// violation reporting with replay files, known findings, evidence.
 
-func (en *Engine) checkProperty(id, tier, verif, workdir string, t0 time.Time) int { return 2 }
+import (
+	"crypto/sha1"
+	"encoding/json"
+	"fmt"
+	"os"
+	"path/filepath"
+	"regexp"
+	"sort"
+	"strings"
+	"time"
+)
+
+type PropSpec struct {
+	ID        string   `json:"id"`
+	Units     []string `json:"units"`      // unit names or prefixes ending in *
+	Only      []string `json:"only"`       // optional: obligation-name regexps that count for this property (default all)
+	Lemmas    []string `json:"lemmas"`     // spec/lemmas/<name>.smt2
+	Scans     []string `json:"scans"`      // named syntactic side-condition checks
+	Replay    string   `json:"replay"`     // replay template family
+	Trusted   []string `json:"trusted"`    // trusted base entries
+	Assume    []string `json:"assumptions"`
+	MinObls   int      `json:"min_obligations"`
+	Bounded   []string `json:"bounded"` // bounded stand-ins (thorough tier)
+	DesignRef string   `json:"design_ref"`
+}
+
+type KnownFinding struct {
+	Property   string `json:"property"`
+	Obligation string `json:"obligation"` // obligation name without ~N suffix
+	What       string `json:"what"`
+	Status     string `json:"status"` // "known" or "fixed"
+	Commit     string `json:"commit,omitempty"`
+}
+
+type Failure struct {
+	Name    string
+	Base    string
+	Verdict string
+	Solver  string
+	Output  string
+	Script  string
+	Pos     string
+	Kind    string
+}
+
+var reTilde = regexp.MustCompile(`~\d+$`)
+
+func baseName(n string) string { return reTilde.ReplaceAllString(n, "") }
+
+func loadJSON(path string, v any) error {
+	b, err := os.ReadFile(path)
+	if err != nil {
+		return err
+	}
+	return json.Unmarshal(b, v)
+}
+
+func (en *Engine) matchUnits(pats []string) []*UnitInfo {
+	seen := map[string]bool{}
+	var out []*UnitInfo
+	for _, p := range pats {
+		for n, u := range en.prog.Units {
+			ok := n == p
+			if strings.HasSuffix(p, "*") && strings.HasPrefix(n, strings.TrimSuffix(p, "*")) {
+				ok = true
+			}
+			if ok && !seen[n] {
+				seen[n] = true
+				out = append(out, u)
+			}
+		}
+	}
+	sort.Slice(out, func(i, j int) bool { return out[i].Name < out[j].Name })
+	return out
+}
+
+func (en *Engine) checkProperty(id, tier, verif, workdir string, t0 time.Time) int {
+	var props []PropSpec
+	if err := loadJSON(filepath.Join(verif, "propmap.json"), &props); err != nil {
+		fmt.Fprintln(os.Stderr, "propmap:", err)
+		return 2
+	}
+	var ps *PropSpec
+	for i := range props {
+		if props[i].ID == id {
+			ps = &props[i]
+		}
+	}
+	if ps == nil {
+		fmt.Fprintln(os.Stderr, "no such property in propmap.json:", id)
+		return 2
+	}
+	var known []KnownFinding
+	_ = loadJSON(filepath.Join(verif, "known_findings.json"), &known)
+
+	timeout := 10
+	agree := false
+	if tier == "thorough" {
+		timeout = 60
+		agree = true
+	}
+	var onlyRe []*regexp.Regexp
+	for _, o := range ps.Only {
+		onlyRe = append(onlyRe, regexp.MustCompile(o))
+	}
+	counts := func(name string) bool {
+		if len(onlyRe) == 0 {
+			return true
+		}
+		for _, r := range onlyRe {
+			if r.MatchString(name) {
+				return true
+			}
+		}
+		return false
+	}
+
+	// 1. units
+	units := en.matchUnits(ps.Units)
+	var results []*UnitResult
+	var undecided []string
+	assumed := map[string]bool{}
+	var fnNames []string
+	for _, u := range units {
+		x := en.newExec(u)
+		if x.effectiveSpec(u) == nil {
+			undecided = append(undecided, u.Name+": no contract")
+			continue
+		}
+		r := en.verifyUnit(u)
+		// keep only the obligations that count for this property
+		var keep []*Obligation
+		for _, o := range r.Obls {
+			if counts(o.Name) {
+				keep = append(keep, o)
+			}
+		}
+		r.Obls = keep
+		results = append(results, r)
+		fnNames = append(fnNames, u.Name)
+		for _, ud := range r.Undecided {
+			undecided = append(undecided, u.Name+": "+ud)
+		}
+		for _, a := range r.Assumed {
+			assumed[a] = true
+		}
+	}
+	for _, pat := range ps.Units {
+		if len(en.matchUnits([]string{pat})) == 0 {
+			undecided = append(undecided, "no unit matches "+pat+" (function removed or renamed)")
+		}
+	}
+	ds := en.discharge(results, workdir, timeout, agree)
+
+	// 2. lemmas (pure SMT over the preludes)
+	type lemmaRes struct {
+		name string
+		res  SolverResult
+		txt  string
+	}
+	var lemmas []lemmaRes
+	for _, l := range ps.Lemmas {
+		b, err := os.ReadFile(filepath.Join(verif, "spec", "lemmas", l+".smt2"))
+		if err != nil {
+			undecided = append(undecided, "lemma "+l+": "+err.Error())
+			continue
+		}
+		script := basePrelude + en.preludes["machine"] + string(b)
+		res := runSolvers(workdir, "lemma."+l, script, timeout, agree)
+		lemmas = append(lemmas, lemmaRes{"lemma." + l, res, script})
+	}
+
+	// 3. scans
+	var scanFails []Failure
+	var scanNames []string
+	for _, s := range ps.Scans {
+		ok, detail := en.runScan(s)
+		scanNames = append(scanNames, "scan."+s)
+		if !ok {
+			scanFails = append(scanFails, Failure{Name: "scan." + s, Base: "scan." + s, Verdict: "failed", Solver: "syntactic scan", Output: detail, Kind: "scan"})
+		}
+	}
+
+	// classify
+	var failures []Failure
+	nObl, nDis, nCover, nCoverOK, nTwin, nTwinOK := 0, 0, 0, 0, 0, 0
+	var solverMs int64
+	var samples []map[string]any
+	bySolver := map[string]int{}
+	twinGroups := map[string][2]int{}
+	for _, d := range ds {
+		solverMs += d.Res.Ms
+		switch d.O.Kind {
+		case "cover":
+			nCover++
+			if d.OK {
+				nCoverOK++
+			} else if d.Res.Verdict == "unsat" {
+				undecided = append(undecided, "VACUOUS: entry assumptions of "+d.O.Unit+" are contradictory")
+			}
+			continue
+		case "twin":
+			nTwin++
+			g := d.O.Unit + ":" + baseName(strings.TrimPrefix(d.O.Name, d.O.Unit+":"))
+			c := twinGroups[g]
+			c[0]++
+			if d.OK {
+				nTwinOK++
+				c[1]++
+			}
+			twinGroups[g] = c
+			continue
+		}
+		nObl++
+		if d.OK {
+			nDis++
+			bySolver[d.Res.Solver]++
+			if len(samples) < 12 {
+				samples = append(samples, map[string]any{"obligation": d.O.Name, "kind": d.O.Kind, "solver": d.Res.Solver, "ms": d.Res.Ms, "pos": d.O.Pos})
+			}
+			continue
+		}
+		if d.Res.Verdict == "sat" {
+			failures = append(failures, Failure{Name: d.O.Name, Base: baseName(d.O.Name), Verdict: "sat", Solver: d.Res.Solver, Output: d.Res.Output, Script: d.Txt, Pos: d.O.Pos, Kind: d.O.Kind})
+		} else {
+			undecided = append(undecided, fmt.Sprintf("%s: solver verdict %s %s", d.O.Name, d.Res.Verdict, trunc(d.Res.Output, 300)))
+		}
+	}
+	for g, c := range twinGroups {
+		if c[1] == 0 {
+			// every path reaching this clause is infeasible: only a vacuity problem if the main obligations passed
+			undecided = append(undecided, "VACUOUS: no feasible path reaches "+g)
+		}
+	}
+	for _, l := range lemmas {
+		nObl++
+		solverMs += l.res.Ms
+		switch l.res.Verdict {
+		case "unsat":
+			nDis++
+			bySolver[l.res.Solver]++
+			samples = append(samples, map[string]any{"obligation": l.name, "kind": "lemma", "solver": l.res.Solver, "ms": l.res.Ms})
+		case "sat":
+			failures = append(failures, Failure{Name: l.name, Base: l.name, Verdict: "sat", Solver: l.res.Solver, Output: l.res.Output, Script: l.txt, Kind: "lemma"})
+		default:
+			undecided = append(undecided, l.name+": solver verdict "+l.res.Verdict)
+		}
+	}
+	for _, s := range scanNames {
+		nObl++
+		failed := false
+		for _, f := range scanFails {
+			if f.Name == s {
+				failed = true
+			}
+		}
+		if !failed {
+			nDis++
+			bySolver["syntactic scan"]++
+		}
+	}
+	failures = append(failures, scanFails...)
+
+	// known findings
+	exit := 0
+	violations := 0
+	var kfLines []string
+	kfSeen := map[string]bool{}
+	var realFailures []Failure
+	for _, f := range failures {
+		matched := false
+		for _, k := range known {
+			if k.Status == "known" && k.Property == id && k.Obligation == f.Base {
+				matched = true
+				if !kfSeen[k.Obligation] {
+					kfSeen[k.Obligation] = true
+					kfLines = append(kfLines, fmt.Sprintf("KNOWN-FINDING: property=%s %s: %s", id, k.Obligation, k.What))
+				}
+			}
+		}
+		if matched {
+			nObl-- // reported under known_findings, counted neither as obligation nor as discharged
+			continue
+		}
+		realFailures = append(realFailures, f)
+	}
+	// a known finding that no longer fails is simply proved; nothing to report
+	for _, l := range kfLines {
+		fmt.Println(l)
+	}
+	// violations: group by base obligation name, one replay file each
+	grouped := map[string][]Failure{}
+	var order []string
+	for _, f := range realFailures {
+		if _, ok := grouped[f.Base]; !ok {
+			order = append(order, f.Base)
+		}
+		grouped[f.Base] = append(grouped[f.Base], f)
+	}
+	var replayOutcome string
+	if len(order) > 0 {
+		replayOutcome = en.runReplayFamily(ps.Replay, id, verif)
+	}
+	for _, base := range order {
+		fs := grouped[base]
+		violations++
+		exit = 1
+		path := en.writeReplay(en.outDir, id, base, fs, ps.Replay, replayOutcome)
+		suffix := ""
+		if !strings.HasPrefix(replayOutcome, "REPRODUCED") {
+			suffix = " no-failing-input-found"
+		}
+		fmt.Printf("VIOLATION property=%s replay=%s obligation=%s%s\n", id, path, base, suffix)
+	}
+	sort.Strings(undecided)
+	if exit == 0 && len(undecided) > 0 {
+		exit = 2
+	}
+	for _, u := range undecided {
+		fmt.Println("UNDECIDED:", u)
+	}
+	if ps.MinObls > 0 && nObl < ps.MinObls && exit == 0 {
+		fmt.Printf("UNDECIDED: only %d obligations generated, the property map expects at least %d\n", nObl, ps.MinObls)
+		exit = 2
+	}
+	if nObl == 0 && exit == 0 {
+		fmt.Println("UNDECIDED: no obligations generated")
+		exit = 2
+	}
+
+	// evidence
+	var assumptions []string
+	for a := range assumed {
+		assumptions = append(assumptions, a)
+	}
+	assumptions = append(assumptions, ps.Assume...)
+	assumptions = append(assumptions,
+		"integers are mathematical Int; + and - in package seq carry explicit no-overflow obligations, arithmetic in package rewriter is not checked for overflow",
+		"partial correctness: termination is not proved",
+		"the VC generator's encoding of Go (evaluation order, field-per-array heap, slices as (base,off,len,cap) over element arrays) and the SMT solvers are trusted")
+	sort.Strings(assumptions)
+	sort.Strings(fnNames)
+	var kfEv []map[string]string
+	for _, k := range known {
+		if k.Property == id {
+			kfEv = append(kfEv, map[string]string{"obligation": k.Obligation, "status": k.Status, "what": k.What, "commit": k.Commit})
+		}
+	}
+	trusted := append([]string{"govc (this VC generator)", "z3 4.8.12 / z3 5.1.0 / cvc5 1.0 (first definite answer wins; thorough tier requires two solvers to agree on unsat)", "spec/*.smt2 preludes (hand-written specification)"}, ps.Trusted...)
+	ev := map[string]any{
+		"property_id": id,
+		"tier":        tier,
+		"seed":        seedFromEnv(),
+		"level":       "proof",
+		"coverage": map[string]any{
+			"obligations":              nObl,
+			"discharged":               nDis,
+			"checker_cmd":              fmt.Sprintf("/verif/bin/govc check %s --tier %s", id, tier),
+			"trusted_base":             trusted,
+			"functions_under_contract": fnNames,
+			"discharged_by":            bySolver,
+			"solver_time_s":            float64(solverMs) / 1000.0,
+			"vacuity_covers":           map[string]int{"generated": nCover, "satisfiable": nCoverOK},
+			"must_fail_twins":          map[string]int{"generated": nTwin, "satisfiable": nTwinOK},
+			"lemmas":                   ps.Lemmas,
+			"scans":                    ps.Scans,
+			"samples":                  samples,
+			"undecided":                undecided,
+			"known_findings":           kfEv,
+			"bounded_checks":           []string{},
+		},
+		"assumptions": assumptions,
+		"wall_s":      time.Since(t0).Seconds(),
+		"violations":  violations,
+	}
+	os.MkdirAll(filepath.Join(en.outDir, "evidence"), 0o755)
+	b, _ := json.MarshalIndent(ev, "", " ")
+	os.WriteFile(filepath.Join(en.outDir, "evidence", id+".json"), b, 0o644)
+	fmt.Printf("%s: %d obligations, %d discharged, %d violations, %d undecided, %d known findings (%.1fs)\n", id, nObl, nDis, violations, len(undecided), len(kfLines), time.Since(t0).Seconds())
+	return exit
+}
+
+func seedFromEnv() int {
+	var s int
+	fmt.Sscan(os.Getenv("VERIF_SEED"), &s)
+	return s
+}
+
+func (en *Engine) writeReplay(verif, id, base string, fs []Failure, family, outcome string) string {
+	dir := filepath.Join(verif, "replays", id)
+	os.MkdirAll(dir, 0o755)
+	h := sha1.Sum([]byte(fs[0].Script + fs[0].Output))
+	path := filepath.Join(dir, fmt.Sprintf("%s-%x.json", sanitize(base), h[:4]))
+	var items []map[string]any
+	for _, f := range fs {
+		items = append(items, map[string]any{"obligation": f.Name, "position": f.Pos, "verdict": f.Verdict, "solver": f.Solver, "solver_output": f.Output, "smt_script": f.Script})
+	}
+	rep := map[string]any{
+		"property":          id,
+		"failed_obligation": base,
+		"instances":         items,
+		"replay_family":     family,
+		"replay_result":     outcome,
+		"replay_cmd":        fmt.Sprintf("/verif/check %s --replay %s", id, path),
+	}
+	b, _ := json.MarshalIndent(rep, "", " ")
+	os.WriteFile(path, b, 0o644)
+	return path
+}
